@@ -19,42 +19,57 @@ Open Scope string_scope.
 
 Definition lb_g : Q := 45359237 # 100000.
 
-Definition ref_table : list (string * list (list string * Q)) :=
+(** Each row: names, size, and the relative accuracy to which the code is
+    expected to state the constant (0 = exactly; the cup is given to five and
+    the pint to three decimal places in units.py). *)
+Definition ref_table : list (string * list (list string * Q * Q)) :=
   [ ("mass",
-      [ (["g"; "gram"; "grams"], 1 # 1);
-        (["kg"; "kilo"; "kilos"; "kilogram"; "kilograms"], 1000 # 1);
-        (["lb"; "lbs"; "pound"; "pounds"], lb_g);
-        (["oz"; "ozs"; "ounce"; "ounces"], (lb_g / (16 # 1))%Q) ]);
+      [ (["g"; "gram"; "grams"], 1 # 1, 0%Q);
+        (["kg"; "kilo"; "kilos"; "kilogram"; "kilograms"], 1000 # 1, 0%Q);
+        (["lb"; "lbs"; "pound"; "pounds"], lb_g, 0%Q);
+        (["oz"; "ozs"; "ounce"; "ounces"], (lb_g / (16 # 1))%Q, 0%Q) ]);
     ("volume",
-      [ (["l"; "litre"], 1000 # 1);
-        (["ml"; "mill"; "mills"; "milliliter"; "milliliters"], 1 # 1);
-        (["tsp"; "tsps"; "teaspoons"; "teaspoon"; "tea spoon"; "tea spoons"], 5 # 1);
-        (["tbsp"; "tbsps"; "tablespoon"; "tablespoons"; "table spoon"; "table spoons"], 15 # 1);
-        (["cup"; "cups"], 2365882365 # 10000000);
-        (["pint"; "pints"], 56826125 # 100000) ]);
-    ("clove", [ (["clove"; "cloves"], 1 # 1) ]);
-    ("bulb", [ (["bulb"; "bulbs"], 1 # 1) ]);
-    ("can", [ (["can"; "cans"; "tin"; "tins"], 1 # 1) ]);
-    ("pinch", [ (["pinch"; "pinches"], 1 # 1) ]);
-    ("knob", [ (["knob"; "knobs"], 1 # 1) ]);
-    ("packet", [ (["packet"; "packets"; "pack"; "packs"], 1 # 1) ]);
-    ("box", [ (["box"; "boxes"; "boxen"], 1 # 1) ]);
-    ("bag", [ (["bag"; "bags"], 1 # 1) ]);
-    ("sack", [ (["sack"; "sacks"], 1 # 1) ]);
-    ("sachet", [ (["sachet"; "sachets"], 1 # 1) ]);
-    ("rasher", [ (["rasher"; "rashers"], 1 # 1) ]);
-    ("strip", [ (["strip"; "strips"], 1 # 1) ]) ].
+      [ (["l"; "litre"], 1000 # 1, 0%Q);
+        (["ml"; "mill"; "mills"; "milliliter"; "milliliters"], 1 # 1, 0%Q);
+        (["tsp"; "tsps"; "teaspoons"; "teaspoon"; "tea spoon"; "tea spoons"], 5 # 1, 0%Q);
+        (["tbsp"; "tbsps"; "tablespoon"; "tablespoons"; "table spoon"; "table spoons"], 15 # 1, 0%Q);
+        (["cup"; "cups"], 2365882365 # 10000000, 5 # 100000000);      (* 236.58824: within 5e-8 *)
+        (["pint"; "pints"], 56826125 # 100000, 5 # 10000000) ]);      (* 568.261: within 5e-7 *)
+    ("clove", [ (["clove"; "cloves"], 1 # 1, 0%Q) ]);
+    ("bulb", [ (["bulb"; "bulbs"], 1 # 1, 0%Q) ]);
+    ("can", [ (["can"; "cans"; "tin"; "tins"], 1 # 1, 0%Q) ]);
+    ("pinch", [ (["pinch"; "pinches"], 1 # 1, 0%Q) ]);
+    ("knob", [ (["knob"; "knobs"], 1 # 1, 0%Q) ]);
+    ("packet", [ (["packet"; "packets"; "pack"; "packs"], 1 # 1, 0%Q) ]);
+    ("box", [ (["box"; "boxes"; "boxen"], 1 # 1, 0%Q) ]);
+    ("bag", [ (["bag"; "bags"], 1 # 1, 0%Q) ]);
+    ("sack", [ (["sack"; "sacks"], 1 # 1, 0%Q) ]);
+    ("sachet", [ (["sachet"; "sachets"], 1 # 1, 0%Q) ]);
+    ("rasher", [ (["rasher"; "rashers"], 1 # 1, 0%Q) ]);
+    ("strip", [ (["strip"; "strips"], 1 # 1, 0%Q) ]) ].
 
-(** [(kind, size)] of a documented name. *)
-Definition ref_rows : list (str * str * Q) :=
-  flat_map (fun k => flat_map (fun u => map (fun n => (s n, s (fst k), snd u)) (fst u)) (snd k)) ref_table.
+(** [(kind, size, accuracy)] of a documented name. *)
+Definition ref_rows : list (str * str * Q * Q) :=
+  flat_map (fun k => flat_map (fun u => map (fun n => (s n, s (fst k), snd (fst u), snd u)) (fst (fst u))) (snd k))
+           ref_table.
 
-Fixpoint ref_lookup (n : str) (rows : list (str * str * Q)) : option (str * Q) :=
+Fixpoint ref_lookup (n : str) (rows : list (str * str * Q * Q)) : option (str * Q * Q) :=
   match rows with
   | [] => None
-  | (n', k, q) :: r => if str_eqb n n' then Some (k, q) else ref_lookup n r
+  | (n', k, q, t) :: r => if str_eqb n n' then Some (k, q, t) else ref_lookup n r
   end.
-Definition ref_size (n : str) : option (str * Q) := ref_lookup n ref_rows.
+Definition ref_size (n : str) : option (str * Q) :=
+  match ref_lookup n ref_rows with Some (k, q, _) => Some (k, q) | None => None end.
+
+(** Relative tolerance for a factor between [a] and [b]: the stated
+    accuracies of the two constants plus 1e-12 for binary64 rounding along
+    the conversion path. *)
+Definition float_slack : Q := 1 # 1000000000000.
+Definition ideal_tol (a b : str) : Q :=
+  match ref_lookup a ref_rows, ref_lookup b ref_rows with
+  | Some (_, _, ta), Some (_, _, tb) => ta + tb + float_slack
+  | _, _ => 0%Q
+  end.
 
 (** The factor by which a value in unit [a] is multiplied to express it in
     unit [b] (only inside one kind). *)
